@@ -59,7 +59,7 @@ type accessRec struct {
 
 type sched struct {
 	tasks   []*schedTask
-	byGID   sync.Map // gid -> *schedTask
+	byGID   map[uint64]*schedTask // filled by start() before any task is resumed; read-only afterwards
 	seq     int64    // global event sequence number (history stamps)
 	steps   int
 	trace   func(format string, a ...interface{})
@@ -76,17 +76,31 @@ func (s *sched) addTask(name string, body func(t *schedTask)) *schedTask {
 	return t
 }
 
-// start launches every task goroutine; each parks at once ("start").
+// start launches every task goroutine; each reports its goroutine id and
+// parks at once.  The id table is complete and read-only before the first
+// task is resumed (no lock is ever taken on a task's path through the
+// harness: a harness lock would be indistinguishable from the library's in
+// the runtime's wait reasons).
 func (s *sched) start() {
+	ids := make(chan *schedTask, len(s.tasks))
 	for _, t := range s.tasks {
 		t := t
 		go func() {
 			// deferred: a task unwound with runtime.Goexit (shutdown) finishes too
 			defer atomic.StoreInt32(&t.status, stFinished)
 			t.gid = curGID()
-			s.byGID.Store(t.gid, t)
+			ids <- t
+			<-t.resume // released by start() once the table is complete
 			t.body(t)
 		}()
+	}
+	s.byGID = map[uint64]*schedTask{}
+	for range s.tasks {
+		t := <-ids
+		s.byGID[t.gid] = t
+	}
+	for _, t := range s.tasks {
+		t.resume <- struct{}{}
 	}
 }
 
@@ -97,10 +111,7 @@ func (t *schedTask) park(kind string) {
 }
 
 func (s *sched) current() *schedTask {
-	if v, ok := s.byGID.Load(curGID()); ok {
-		return v.(*schedTask)
-	}
-	return nil
+	return s.byGID[curGID()]
 }
 
 // settle waits until every task is parked, finished or blocked on a lock.
@@ -237,7 +248,16 @@ func lockBlockedGoroutines() map[uint64]bool {
 					st = st[1:]
 					for _, r := range lockWaitReasons {
 						if bytes.HasPrefix(st, r) {
-							out[id] = true
+							// only a wait inside sync.RWMutex counts (the forest's lock);
+							// any other mutex is not ours to interpret
+							end := bytes.Index(b, []byte("\n\n"))
+							blk := b
+							if end >= 0 {
+								blk = b[:end]
+							}
+							if bytes.Contains(blk, []byte("sync.(*RWMutex).")) {
+								out[id] = true
+							}
 						}
 					}
 				}
